@@ -680,6 +680,8 @@ qb_ipcs_disconnect(struct qb_ipcs_connection *c)
 	if (c->state == QB_IPCS_CONNECTION_ACTIVE) {
 		c->service->funcs.disconnect(c);
 		c->state = QB_IPCS_CONNECTION_INACTIVE;
+		/* it was counted when the set-up succeeded */
+		c->service->stats.active_connections--;
 		c->service->stats.closed_connections++;
 
 		/* This removes the initial alloc ref */
